@@ -254,6 +254,45 @@ func run(raw json.RawMessage) driver.Result {
 	switch in.K {
 	case "flt":
 		return runFloat(in)
+	case "nsl":
+		l := append([]string{}, in.L...)
+		str := flaghelper.NewStringSliceFlag(&l).String()
+		ty, term := textgen.ParseTy(in.T)
+		out := guard(func() string {
+			v, err := parse.String(str, ty)
+			if err != nil {
+				return "(Err 0)"
+			}
+			return "(Ok " + textgen.Pval(v) + ")"
+		})
+		return driver.Result{
+			Coq:  fmt.Sprintf("NamedSliceRT %s %s %s %s %s", textgen.Printable(in.L...), term, coqfmt.Strs(in.L), coqfmt.Str(str), out),
+			Kind: "named-slice-roundtrip", Nontrivial: len(in.L) >= 1 && textgen.Special(in.L...),
+			Tags: []string{"named-slice-" + in.T},
+		}
+	case "nmap":
+		m := map[string]string{}
+		var all []string
+		parts := make([]string, len(in.M))
+		for i, kv := range in.M {
+			m[kv[0]] = kv[1]
+			all = append(all, kv[0], kv[1])
+			parts[i] = fmt.Sprintf("(%s, %s)", coqfmt.Str(kv[0]), coqfmt.Str(kv[1]))
+		}
+		str := flaghelper.NewMapStringStringFlag(&m).String()
+		ty, term := textgen.ParseTy(in.T)
+		out := guard(func() string {
+			v, err := parse.String(str, ty)
+			if err != nil {
+				return "(Err 0)"
+			}
+			return "(Ok " + textgen.Pval(v) + ")"
+		})
+		return driver.Result{
+			Coq:  fmt.Sprintf("NamedMapRT %s %s %s %s %s", textgen.Printable(all...), term, coqfmt.List(parts), coqfmt.Str(str), out),
+			Kind: "named-map-roundtrip", Nontrivial: len(in.M) >= 1 && textgen.Special(all...),
+			Tags: []string{"named-map-" + in.T},
+		}
 	case "pad":
 		// values rendered as literals with blanks before and after, through both slice paths
 		parts := make([]string, len(in.Vals))
@@ -548,6 +587,21 @@ func literal(v *big.Int, form int) string {
 var blanksBefore = []string{"", " ", "  ", "\t", "\n", " \t "}
 var blanksAfter = []string{"", " ", " ", "  ", "\t", " \t", "\r\n", "   "}
 
+// blanky puts blanks around a string now and then: quoted elements must keep them
+func blanky(r *coqfmt.Rng, s string) string {
+	switch r.Intn(6) {
+	case 0:
+		return " " + s
+	case 1:
+		return s + " "
+	case 2:
+		return " " + s + "  "
+	case 3:
+		return "\t" + s + "\n"
+	}
+	return s
+}
+
 const nForms = 12
 
 // sepEvery puts '_' before every k-th digit (and at the front if lead)
@@ -599,6 +653,15 @@ func sweep() []json.RawMessage {
 			add(input{K: "isrt", Signed: signed, W: w, Vals: []string{}})
 			add(input{K: "isrt", Signed: signed, W: w, Vals: []string{lo.String()}})
 		}
+	}
+	// string elements with blanks at named string-kind types (quoted by the helper: blanks must survive)
+	for _, ty := range []string{"sl:lbl", "names", "sl:str"} {
+		add(input{K: "nsl", T: ty, L: []string{" a ", "b", "  ", ""}})
+		add(input{K: "nsl", T: ty, L: []string{"x "}})
+		add(input{K: "nsl", T: ty, L: []string{}})
+	}
+	for _, ty := range []string{"map:lbl:str", "map:str:lbl", "map:lbl:lbl", "nenv"} {
+		add(input{K: "nmap", T: ty, M: [][2]string{{" k ", " v "}, {"k", "v "}}})
 	}
 	// blanks before and after integer elements on both slice paths
 	for w := 0; w < 5; w++ {
@@ -693,7 +756,7 @@ func genLiteral(r *coqfmt.Rng, signed bool, w int) string {
 	return lit
 }
 
-var tyPool = []string{"dur", "sl:dur", "map:str:dur", "map:dur:bool", "sl:str", "sl:str", "set", "set", "map:str:str", "map:str:str", "mss", "mss",
+var tyPool = []string{"sl:lbl", "names", "map:lbl:str", "map:str:lbl", "map:lbl:lvl", "sl:lvl", "nenv", "lbl", "ndur", "nset", "sl:names", "dur", "sl:dur", "map:str:dur", "map:dur:bool", "sl:str", "sl:str", "set", "set", "map:str:str", "map:str:str", "mss", "mss",
 	"sl:i8", "sl:u16", "sl:bool", "sl:sl:str", "map:i16:bool", "map:str:u8", "map:bool:str", "bool", "str",
 	"i32", "u64", "uptr", "other", "sl:other", "map:str:other", "map:other:str", "sl:set", "sl:map:str:str"}
 
@@ -707,7 +770,30 @@ func gen(r *coqfmt.Rng, n int, tier string) []json.RawMessage {
 	for i := 0; i < n; i++ {
 		signed := r.Chance(1, 2)
 		w := r.Intn(5)
-		switch x := r.Intn(130); {
+		switch x := r.Intn(138); {
+		case x >= 134:
+			ks := tg.Distinct(tg.Size() % 5)
+			m := make([][2]string, len(ks))
+			for j, k := range ks {
+				m[j] = [2]string{blanky(r, k), blanky(r, tg.String())}
+			}
+			// keys stay distinct: blanky only adds blanks around a key, and two keys that differ only
+			// in blanks are still different strings
+			seen := map[string]bool{}
+			m2 := m[:0]
+			for _, kv := range m {
+				if !seen[kv[0]] {
+					seen[kv[0]] = true
+					m2 = append(m2, kv)
+				}
+			}
+			add(input{K: "nmap", T: coqfmt.Pick(r, []string{"map:lbl:str", "map:str:lbl", "map:lbl:lbl", "nenv", "map:str:str"}), M: m2})
+		case x >= 130:
+			l := tg.Strings(tg.Size() % 6)
+			for j := range l {
+				l[j] = blanky(r, l[j])
+			}
+			add(input{K: "nsl", T: coqfmt.Pick(r, []string{"sl:lbl", "names", "sl:str", "sl:lbl", "names"}), L: l})
 		case x >= 124:
 			k := 1 + r.Intn(5)
 			vals := make([]string, k)
@@ -819,6 +905,8 @@ func main() {
 			"(non-trivial: >=2 members and at least one member containing a special rune); raw text through parse.String at 26 types " +
 			"(non-trivial: parsed successfully, length >= 3); float32/float64/complex64/complex128 boundary sweep and random literals, " +
 			"scalar, slice element, map value, parse.Complex*, flag helper Set - DIRECT ORACLE against strconv at the target bit size, no model (non-trivial: accepted); " +
+			"string slices and string maps with blanks at the ends of the members through the flag helpers and back through parse.String at named string-kind types " +
+			"([]Label, type Names []string, map[Label]string, type Env map[string]string; non-trivial: a special rune present); " +
 			"integer slices with blanks before and after the elements through both parse.String at []intN and the integral slice parsers (non-trivial: >=2 elements); " +
 			"durations: nanosecond counts (every unit boundary of Duration.String, int64 edges, random) through Duration.String and back, and duration texts " +
 			"(terms around the int64 edges, all unit spellings, long fractions, malformed) through parse.String at time.Duration (non-trivial: accepted / non-zero); " +
